@@ -4,15 +4,18 @@
    H_rj / H_px: a DOM the writer accepts is reproduced by the library's write + parse (for XML: up to line-end
    normalisation, see saved_view); props/C08.py tests them on every produced document.
 
-   NOT PROVED: T_C01_xml_roundtrip_adapter_outside (the XML model's round trip outside its defect classes): only the
-   refutations are proved for XML; the load-save-load fixed point; the stream / encoding axis (observed only). *)
-From BS Require Import Base UtfSpec JxJsonSpec JxXmlSpec JxModel JxProofs.
+   NOT PROVED: that EVERY value inside the XML defect class fails to come back (one witness per clause is proved);
+   XML round trip of non-finite doubles (observed); the load-save-load fixed point; the stream / encoding axis
+   (observed only). *)
+From BS Require Import Base UtfSpec JxJsonSpec JxXmlSpec JxModel JxProofs JxXmlRoundtrip.
 Local Open Scope N_scope.
 
 (* full strength: for every well-formed type of the universe (any nesting of vectors, maps, classes with distinct member
    names) and every well-typed value, under both policies, saving and loading into a fresh target gives the value back, or
    the save raises an exception (rt_good); and it raises only for a value that contains a non-finite double.  Holds of the
-   model of the current code (the former findings F26, F28, F42 are repaired in /repo) *)
+   model of the current code (the former findings F26, F28, F42 are repaired in /repo).  ty_wf: class member names are
+   distinct, an optional / smart pointer does not hold another optional or a nullptr_t; float and enum targets are outside
+   (correspondence only) *)
 Theorem T_C01_json_roundtrip_adapter : forall i2d o t v,
   ty_wf t = true -> has_type t v = true ->
   forall r, roundtrip_json i2d o t v = Some r ->
@@ -52,25 +55,64 @@ Print Assumptions T_C01_json_roundtrip_example.
 
 (* the full statement fails in the model of the current code: a carriage return in a string comes back as a line
    feed (J41: pugixml writes it literally into character data, line ends are normalised on reading) *)
-Theorem T_C01_xml_roundtrip_adapter_refuted : forall dtoa17 xstrtod,
-  roundtrip_xml dtoa17 xstrtod mkT None (TyVec TyStr) (VArr [VStr [97; 13; 98]]) = Some (Ok (VArr [VStr [97; 10; 98]])).
+Theorem T_C01_xml_roundtrip_adapter_refuted : forall dtoa17 dtoa9 xstrtod xstrtof,
+  roundtrip_xml dtoa17 dtoa9 xstrtod xstrtof mkT None (TyVec TyStr) (VArr [VStr [97; 13; 98]]) = Some (Ok (VArr [VStr [97; 10; 98]])).
 Proof. exact xml_roundtrip_refuted. Qed.
 Print Assumptions T_C01_xml_roundtrip_adapter_refuted.
 
 (* the former findings F29, F29a, F29w are repaired in /repo: an empty container below the root, a class with attributes
    only inside a container, a white-space-only string all come back *)
-Example T_C01_xml_roundtrip_repaired : forall dtoa17 xstrtod,
-  roundtrip_xml dtoa17 xstrtod mkT None (TyVec (TyVec (TyInt I32))) (VArr [VArr [VInt 1]; VArr []]) = Some (Ok (VArr [VArr [VInt 1]; VArr []])) /\
-  roundtrip_xml dtoa17 xstrtod mkT None (TyVec ty_attronly) (VArr [VObj [([120], VInt 1); ([116; 121; 112; 101], VStr [82])]]) =
+Example T_C01_xml_roundtrip_repaired : forall dtoa17 dtoa9 xstrtod xstrtof,
+  roundtrip_xml dtoa17 dtoa9 xstrtod xstrtof mkT None (TyVec (TyVec (TyInt I32))) (VArr [VArr [VInt 1]; VArr []]) = Some (Ok (VArr [VArr [VInt 1]; VArr []])) /\
+  roundtrip_xml dtoa17 dtoa9 xstrtod xstrtof mkT None (TyVec ty_attronly) (VArr [VObj [([120], VInt 1); ([116; 121; 112; 101], VStr [82])]]) =
     Some (Ok (VArr [VObj [([120], VInt 1); ([116; 121; 112; 101], VStr [82])]])) /\
-  roundtrip_xml dtoa17 xstrtod mkT None (TyVec TyStr) (VArr [VStr [32]; VStr [97]; VStr []]) = Some (Ok (VArr [VStr [32]; VStr [97]; VStr []])).
+  roundtrip_xml dtoa17 dtoa9 xstrtod xstrtof mkT None (TyVec TyStr) (VArr [VStr [32]; VStr [97]; VStr []]) = Some (Ok (VArr [VStr [32]; VStr [97]; VStr []])).
 Proof. exact xml_roundtrip_repaired. Qed.
 Print Assumptions T_C01_xml_roundtrip_repaired.
 
 (* a value outside those classes: nested containers, attributes (markup characters, a line feed), a named root *)
-Example T_C01_xml_roundtrip_example : forall dtoa17 xstrtod,
-  roundtrip_xml dtoa17 xstrtod mkT (Some [83]) (TyMap (TyVec ty_attr))
+Example T_C01_xml_roundtrip_example : forall dtoa17 dtoa9 xstrtod xstrtof,
+  roundtrip_xml dtoa17 dtoa9 xstrtod xstrtof mkT (Some [83]) (TyMap (TyVec ty_attr))
     (VObj [([107], VArr [VObj [([97], VInt (-5)); ([115], VStr [60; 34; 10]); ([98], VBool true); ([117], VInt 18446744073709551615); ([118], VInt 7); ([116], VStr [120; 32])]])]) =
   Some (Ok (VObj [([107], VArr [VObj [([97], VInt (-5)); ([115], VStr [60; 34; 10]); ([98], VBool true); ([117], VInt 18446744073709551615); ([118], VInt 7); ([116], VStr [120; 32])]])])).
 Proof. exact xml_roundtrip_example. Qed.
 Print Assumptions T_C01_xml_roundtrip_example.
+
+(* outside an exact, decidable defect class the XML round trip is the identity: for every well-formed type of the universe
+   (vectors, maps, classes with element and attribute members, optionals / smart pointers; attributes hold fundamental
+   values or strings: ty_wfx), every well-typed value without a non-finite double, both policies, with or without a
+   root key.  The class (xml_defect, a boolean function of type and value):
+     J41   a string written as character data contains a carriage return,
+     F29n  an empty optional / unique_ptr / shared_ptr of a vector, map or class,
+     F53   an optional / smart pointer holding the empty string.
+   H_dtoa is the tested, unproved assumption about pugixml's / libstdc++'s double <-> text conversion. *)
+Theorem T_C01_xml_roundtrip_adapter_outside : forall dtoa17 dtoa9 xstrtod xstrtof o,
+  (forall b, is_nonfinite b = false ->
+     xstrtod (dtoa17 b) = Some (Some b) /\ skip_blanks (dtoa17 b) = dtoa17 b /\ has_cr (dtoa17 b) = false /\ dtoa17 b <> []) ->
+  forall key t v, ty_wf t = true -> ty_wfx t = true -> has_type t v = true ->
+  xml_defect t v = false -> val_nonfinite v = false ->
+  forall r, roundtrip_xml dtoa17 dtoa9 xstrtod xstrtof o key t v = Some r -> r = Ok v.
+Proof. exact xml_roundtrip_outside. Qed.
+Print Assumptions T_C01_xml_roundtrip_adapter_outside.
+
+(* inside the class: one witness per clause (the value that comes back is shown) *)
+Theorem T_C01_xml_roundtrip_defect_witnesses : forall dtoa17 dtoa9 xstrtod xstrtof,
+  (xml_defect (TyVec TyStr) (VArr [VStr [97; 13; 98]]) = true /\
+   roundtrip_xml dtoa17 dtoa9 xstrtod xstrtof mkT None (TyVec TyStr) (VArr [VStr [97; 13; 98]]) = Some (Ok (VArr [VStr [97; 10; 98]]))) /\
+  (xml_defect (TyVec (TyOpt (TyVec (TyInt I32)))) (VArr [VOpt None]) = true /\
+   roundtrip_xml dtoa17 dtoa9 xstrtod xstrtof mkT None (TyVec (TyOpt (TyVec (TyInt I32)))) (VArr [VOpt None]) = Some (Ok (VArr [VOpt (Some (VArr []))]))) /\
+  (xml_defect (TyVec (TyOpt ty_inner)) (VArr [VOpt None]) = true /\
+   roundtrip_xml dtoa17 dtoa9 xstrtod xstrtof mkT None (TyVec (TyOpt ty_inner)) (VArr [VOpt None]) =
+     Some (Ok (VArr [VOpt (Some (VObj [([120], VInt 0); ([110; 97; 109; 101], VStr [])]))]))) /\
+  (xml_defect (TyVec (TyOpt TyStr)) (VArr [VOpt (Some (VStr []))]) = true /\
+   roundtrip_xml dtoa17 dtoa9 xstrtod xstrtof mkT None (TyVec (TyOpt TyStr)) (VArr [VOpt (Some (VStr []))]) = Some (Ok (VArr [VOpt None]))).
+Proof. exact xml_defect_witnesses. Qed.
+Print Assumptions T_C01_xml_roundtrip_defect_witnesses.
+
+Example T_C01_xml_roundtrip_optionals : forall dtoa17 dtoa9 xstrtod xstrtof,
+  roundtrip_xml dtoa17 dtoa9 xstrtod xstrtof mkT None (TyVec (TyOpt TyStr)) (VArr [VOpt None; VOpt (Some (VStr [32])); VOpt (Some (VStr [97]))]) =
+    Some (Ok (VArr [VOpt None; VOpt (Some (VStr [32])); VOpt (Some (VStr [97]))])) /\
+  roundtrip_xml dtoa17 dtoa9 xstrtod xstrtof mkT None (TyMap (TyOpt (TyVec (TyInt I32)))) (VObj [([97], VOpt (Some (VArr []))); ([98], VOpt (Some (VArr [VInt 5])))]) =
+    Some (Ok (VObj [([97], VOpt (Some (VArr []))); ([98], VOpt (Some (VArr [VInt 5])))])).
+Proof. exact xml_roundtrip_optionals. Qed.
+Print Assumptions T_C01_xml_roundtrip_optionals.
